@@ -590,3 +590,58 @@ mod tests {
         }
     }
 }
+
+/// Read-only copy of the free state of one resource pool (verification hook).
+#[cfg(feature = "verif")]
+#[derive(Debug, Clone, PartialEq, Eq)]
+pub enum VerifPoolState {
+    Empty,
+    /// Per group: (wholly free indices, (index, free fractions) of partially used indices)
+    Indexed {
+        full_size: u64,
+        grouped: bool,
+        groups: Vec<(Vec<u32>, Vec<(u32, u32)>)>,
+    },
+    Sum {
+        full_size: u64,
+        free: u64,
+    },
+}
+
+#[cfg(feature = "verif")]
+impl ResourcePool {
+    pub(crate) fn verif_free_state(&self) -> VerifPoolState {
+        fn group(
+            indices: &[ResourceIndex],
+            fractions: &Map<ResourceIndex, ResourceFractions>,
+        ) -> (Vec<u32>, Vec<(u32, u32)>) {
+            let mut whole: Vec<u32> = indices.iter().map(|i| i.as_num()).collect();
+            whole.sort_unstable();
+            let mut fr: Vec<(u32, u32)> = fractions.iter().map(|(i, f)| (i.as_num(), *f)).collect();
+            fr.sort_unstable();
+            (whole, fr)
+        }
+        match self {
+            ResourcePool::Empty => VerifPoolState::Empty,
+            ResourcePool::Indices(pool) => VerifPoolState::Indexed {
+                full_size: pool.full_size.total_fractions(),
+                grouped: false,
+                groups: vec![group(&pool.indices, &pool.fractions)],
+            },
+            ResourcePool::Groups(pool) => VerifPoolState::Indexed {
+                full_size: pool.full_size.total_fractions(),
+                grouped: true,
+                groups: pool
+                    .indices
+                    .iter()
+                    .zip(pool.fractions.iter())
+                    .map(|(i, f)| group(i, f))
+                    .collect(),
+            },
+            ResourcePool::Sum(pool) => VerifPoolState::Sum {
+                full_size: pool.full_size.total_fractions(),
+                free: pool.free.total_fractions(),
+            },
+        }
+    }
+}
